@@ -9,10 +9,10 @@ SPEC = dict(
     rule="a real QXmppClient (default extensions, one object kept across attempts) connects over loopback TCP to an in-process "
          "scripted QSslSocket server driven by a protocol-conforming responder (it answers what the client actually asked: "
          "<proceed/>, SASL success/challenge, SASL2 success with bound/resumed, bind result, <enabled/>, <resumed/>/<failed/>, "
-         "XEP-0078 fields/result) under 17 policies {SASL PLAIN|SCRAM + bind, STARTTLS first, SASL2+bind2 with inline SM, SASL2 + "
+         "XEP-0078 fields/result) under 19 policies {SASL PLAIN|SCRAM + bind, STARTTLS first, SASL2+bind2 with inline SM, SASL2 + "
          "classic bind, legacy auth (pre-1.0 header / as stream feature), SM none|enabled|resumable, resumption accepted|refused, "
          "see-other-host early / after STARTTLS / inside an established session (second local listener), header + features pipelined in "
-         "ONE segment}. (0) 24 incidents, each followed by a full conforming attempt that must connect: authentication failure "
+         "ONE segment, <enabled resume location=…> naming a THIRD local listener}. (0) 30 incidents (incl. location then stream error+close / </stream:stream> / rejected element / cut / reset), each followed by a full conforming attempt that must connect: authentication failure "
          "(plain / over TLS), bind error, <failure/> to starttls, failed TLS handshake (TLS required / optional), stream error + "
          "</stream:stream> in one segment (negotiation / session / resumable session), see-other-host + </stream:stream> in ONE segment "
          "(session, resumable session, over TLS, during negotiation - the client continues on the second listener), cut in the MIDDLE of an "
@@ -27,7 +27,8 @@ SPEC = dict(
          "signal; while the responder still has something to say nothing may report an established session; <= 1 connected per TCP "
          "connection; SessionBegin.bind2Used must describe the current connection; the outstanding request is finished unless the "
          "script made the stream resumable, and does not survive a new non-resumed session; a full conforming script must end in "
-         "connected/isConnected()/state()==Connected.",
+         "connected/isConnected()/state()==Connected; every connect must land on the listener the script predicts (resume location iff the "
+         "script left a resumable stream whose <enabled/> named one, else the configured host; every line also compares tg=a|b|c with the model).",
     trusted_base=[
         "Lean 4.33.0 kernel; axioms per theorem listed under coverage.theorems (subset of propext, Classical.choice, Quot.sound)",
         "hand-written model lean/Qx/Model/C04Negotiation.lean (shared with C04) of QXmppOutgoingClient / XmppSocket / StreamAckManager / "
@@ -39,8 +40,7 @@ SPEC = dict(
     assumptions=[
         "the application calls connectToServer only while disconnected; automatic reconnection (a timer in QXmppClient) is disabled and not modelled",
         "OUT OF MODEL AND HARNESS: DNS/SRV address lists and the TryNext branch of _q_socketDisconnected (explicit host/port, one address; "
-        "the address-list indices have no model field), the resume location of <enabled location=…/> (m_resumeHost/Port: the responder never "
-        "sends a location), carbons (m_enabled/m_requested), FAST m_tokenChanged, streamFrom, authenticationMethod (no model field; "
+        "the address-list indices have no model field), a location on the inline <enabled/> of bind2, application-initiated disconnectFromServer(), carbons (m_enabled/m_requested), FAST m_tokenChanged, streamFrom, authenticationMethod (no model field; "
         "per_connection_reset says nothing about them), timers (keep-alive ping, reconnection)",
         "reads: one element per read, or the listed multi-element segments (header+features, header+stanza, stream error+close); elements that "
         "follow, in the same read, an element on which the client disconnects are not modelled; a cut in the middle of an element is modelled "
@@ -80,7 +80,9 @@ SPEC = dict(
                "of attempts). The four former findings (legacy login, bind2Bound leak, see-other-host inside a session / over TLS) are fixed "
                "in the tree (7771c2d, 7a677f2, e363fe9, 7c60ff5, a739aa9); their witnesses are replayed first. A white space keep-alive used to end the connection "
                "even inside an established session (C10:whitespace-keepalive-ends-connection, fixed by 8d68c05; theorem "
-               "whitespace_keepalive_is_ignored, witness replayed).",
+               "whitespace_keepalive_is_ignored, witness replayed). Where the next attempt goes: "
+               "next_attempt_after_stream_end_targets_configured_host, connect_target_spec. OPEN finding: the resume location is never cleared "
+               "(C10:next-attempt-targets-stale-resume-location, C10_defect_stale_resume_location, fixes/C10-stale-resume-location.diff).",
     design_ref="5.10",
     technique="Lean 4 proofs over all event histories + model/implementation correspondence against a scripted, cut-at-every-point server",
 )
